@@ -176,7 +176,9 @@ func (f *flusher) nextToFlush() (b *blob, ok bool) {
 
 func (f *flusher) flush(b *blob) {
 	key := b.key
+	verifYield("flush.start", key)
 	defer func() {
+		verifYield("flush.beforeUnban", key)
 		err := f.mem.UnbanEviction(key) // prevent leak
 		if err != nil {
 			f.log.With(
@@ -232,6 +234,7 @@ func (f *flusher) flushMetadatasAndUnmarkDirty(key string, b *blob) error {
 		b.mu.Unlock()
 
 		for mdSuffix := range dirtyMDSnapshot {
+			verifYield("flushMD.beforeFlush", key)
 			err := f.flushMetadata(key, mdSuffix)
 			if err != nil {
 				f.log.With(
@@ -243,6 +246,7 @@ func (f *flusher) flushMetadatasAndUnmarkDirty(key string, b *blob) error {
 			}
 		}
 
+		verifYield("flushMD.beforeUnmark", key)
 		f.mu.Lock()
 		b.mu.Lock()
 		if len(b.dirtyMD) == 0 {
@@ -288,6 +292,7 @@ func (f *flusher) flushMetadata(key, mdSuffix string) error {
 
 func (f *flusher) flushData(b *blob) error {
 	key := b.key
+	verifYield("flushData.beforeMemOpen", key)
 	memF, err := memOpen(f.mem, key)
 	if errors.Is(err, os.ErrNotExist) {
 		return nil
@@ -296,6 +301,7 @@ func (f *flusher) flushData(b *blob) error {
 		return fmt.Errorf("mem store open: %w", err)
 	}
 	defer closers.Close(memF)
+	verifYield("flushData.beforeDiskCreate", key)
 	diskF, err := f.disk.Create(key, b.dataSize)
 	if err != nil {
 		return fmt.Errorf("disk store create: %w", err)
@@ -316,6 +322,7 @@ func (f *flusher) flushData(b *blob) error {
 		return nil
 	}
 	f.mu.Unlock()
+	verifYield("flushData.beforeCopy", key)
 	_, err = ioCopy(diskF, memF)
 	if errors.Is(err, memory.ErrEvicted) {
 		return nil
@@ -323,6 +330,7 @@ func (f *flusher) flushData(b *blob) error {
 	if err != nil {
 		return fmt.Errorf("io copy from mem file to disk file: %w", err)
 	}
+	verifYield("flushData.beforeMarkComplete", key)
 	err = f.disk.MarkComplete(key)
 	if errors.Is(err, os.ErrNotExist) {
 		return nil
@@ -330,5 +338,6 @@ func (f *flusher) flushData(b *blob) error {
 	if err != nil {
 		return fmt.Errorf("disk mark complete: %w", err)
 	}
+	verifYield("flushData.afterMarkComplete", key)
 	return nil
 }
